@@ -82,6 +82,10 @@ func nodeValues(thorough bool) []value {
 		addBase("full3", full3, 2)
 	}
 	addBase("empty", &sbom.Node{}, 0)
+	// set-valued lists whose elements coincide under common normalisations (letter case, surrounding blanks,
+	// numeric order vs. lexical order): any ordering that is not a total order on the raw values shows up as a
+	// permutation that changes equality
+	addBase("colliding-elements", collidingNode(), 2)
 	// crafted values: the flattening's own separators inside attribute values
 	crafted := func(family string, a, b *sbom.Node) {
 		vs = append(vs, value{Label: "crafted/" + family + "/1", Msg: a, PermOf: -1, Crafted: family}, value{Label: "crafted/" + family + "/2", Msg: b, PermOf: -1, Crafted: family})
@@ -110,6 +114,17 @@ func nodeValues(thorough bool) []value {
 	return vs
 }
 
+func collidingNode() *sbom.Node {
+	cs := func(p string) []string { return []string{p + "MIT", p + "mit", p + "Mit", p + "mit ", " " + p + "mit", p + "10", p + "9"} }
+	per := func(p string) []*sbom.Person {
+		return []*sbom.Person{{Name: p + "Bob", Email: "B@x"}, {Name: p + "bob", Email: "b@x"}, {Name: p + "BOB", Email: "b@x "}}
+	}
+	return &sbom.Node{Id: "col", Name: "colliding", Licenses: cs(""), Attribution: cs("a-"), FileTypes: cs("f-"),
+		Suppliers: per("s"), Originators: per("o"),
+		ExternalReferences: []*sbom.ExternalReference{{Url: "https://E/x", Type: 1}, {Url: "https://e/x", Type: 1}, {Url: "https://e/X", Type: 1, Comment: "c"}},
+		PrimaryPurpose:     []sbom.Purpose{sbom.Purpose_LIBRARY, sbom.Purpose_APPLICATION, sbom.Purpose_CONTAINER}}
+}
+
 func edgeValues() []value {
 	var vs []value
 	addBase := func(label string, base *sbom.Edge) {
@@ -128,6 +143,7 @@ func edgeValues() []value {
 	addBase("e3", &sbom.Edge{From: "a", Type: sbom.Edge_contains, To: []string{"c", "b", "d"}})
 	addBase("e1", &sbom.Edge{From: "a", Type: sbom.Edge_dependsOn, To: []string{"b"}})
 	addBase("e0", &sbom.Edge{From: "a"})
+	addBase("colliding-targets", &sbom.Edge{From: "a", Type: sbom.Edge_contains, To: []string{"B", "b", "b ", " b", "10", "9"}})
 	for t := range sbom.Edge_Type_name {
 		vs = append(vs, value{Label: fmt.Sprintf("type-%d", t), Msg: &sbom.Edge{From: "f", Type: sbom.Edge_Type(t), To: []string{"t"}}, PermOf: -1})
 	}
@@ -206,6 +222,22 @@ func listValues() []value {
 			v.PermOf = bi
 		}
 		vs = append(vs, v)
+	}
+	{
+		// identifiers that coincide under case folding / trimming, in both orders
+		cb := func(rev bool) *sbom.NodeList {
+			ns := []*sbom.Node{n("Pkg", "A"), n("pkg", "B"), n("pkg ", "C")}
+			rs := []string{"Pkg", "pkg", "pkg "}
+			es := []*sbom.Edge{e("Pkg", sbom.Edge_contains, "pkg", "pkg "), e("pkg", sbom.Edge_contains, "Pkg", "pkg ")}
+			if rev {
+				ns = []*sbom.Node{ns[2], ns[1], ns[0]}
+				rs = []string{"pkg ", "pkg", "Pkg"}
+				es = []*sbom.Edge{e("pkg", sbom.Edge_contains, "pkg ", "Pkg"), e("Pkg", sbom.Edge_contains, "pkg ", "pkg")}
+			}
+			return mk(ns, es, rs)
+		}
+		ci := len(vs)
+		vs = append(vs, value{Label: "colliding-ids", Msg: cb(false), PermOf: -1}, value{Label: "colliding-ids-reversed", Msg: cb(true), PermOf: ci})
 	}
 	vs = append(vs, value{Label: "empty", Msg: &sbom.NodeList{}, PermOf: -1})
 	vs = append(vs, value{Label: "new", Msg: sbom.NewNodeList(), PermOf: -1}) // nil-vs-empty is C12's copy clause, not asserted here
